@@ -221,7 +221,7 @@ func hostileMain(args []string) int {
 			fmt.Println("HARNESS healthy handshake failed")
 			return 2
 		}
-		time.Sleep(2 * time.Millisecond)
+		healthy.awaitCmd("getheaders", 1, 10*time.Second)
 		if !hstep("hdrBSV") {
 			fmt.Println("HARNESS healthy verification failed")
 			return 2
@@ -250,7 +250,9 @@ func hostileMain(args []string) int {
 		ok := true
 		if phase != "connected" {
 			ok = step("version") && step("verack")
-			time.Sleep(time.Millisecond)
+			if ok {
+				s.awaitCmd("getheaders", 1, 5*time.Second)
+			}
 		}
 		if ok && phase == "ready" && !beh.VerifyOnly {
 			ok = step("hdrBSV")
